@@ -432,12 +432,25 @@ class RefPeer:
 
     The object table:  root (id 1): answer=42, name="reference", blob=bytes(range(7)), pair=(1, ("x", 2.5, None)),
     add(a, b) = a + b, echo(*args) = args, stop() raises StopIteration, fail() raises KeyError("k"),
-    fn = the object `twice` (id 2), a callable: twice(x) = (x, x).
+    fn = the object `twice` (id 2), a callable: twice(x) = (x, x); settable/deletable attributes; root == 42;
+    it = an iterator over range(7) (id 3; `__iter__` rewinds it; served in chunks by BUFFITER);
+    seq = a sequence 0..9 (id 4; old-style slicing); ctx = a context manager (id 5; `__enter__` via CALLATTR,
+    leaving via CTXEXIT, both logged in `ctx_log`); Klass = a class (instance id 0) of which root is an instance
+    (INSTANCECHECK).  PICKLE is refused (ValueError) as under the published default configuration.
+    `handled` collects the handler numbers served.
     """
     ROOT = ("refpeer.Root", 900001, 1)
     TWICE = ("refpeer.Twice", 900002, 2)
     METHODS = {"add": ("refpeer.Method", 900003, 11), "echo": ("refpeer.Method", 900003, 12),
-               "stop": ("refpeer.Method", 900003, 13), "fail": ("refpeer.Method", 900003, 14)}
+               "stop": ("refpeer.Method", 900003, 13), "fail": ("refpeer.Method", 900003, 14),
+               "__enter__": ("refpeer.Method", 900003, 15), "__iter__": ("refpeer.Method", 900003, 16)}
+    ITER = ("refpeer.Iter", 900004, 3)
+    SEQ = ("refpeer.Seq", 900005, 4)
+    CTX = ("refpeer.Ctx", 900006, 5)
+    KLASS = ("refpeer.Klass", 900010, 0)
+    ITEMS = tuple(range(7))
+    SEQ_ITEMS = tuple(range(10))
+    DIR = ("add", "answer", "echo", "name")
 
     def __init__(self, choose=None, compress=True, level=COMPRESSION_LEVEL, force=None, extra_attrs=None):
         self.choose = choose
@@ -448,7 +461,10 @@ class RefPeer:
         self.log = []                       # ('in'|'out', parsed message, payload bytes)
         self.problems = []                  # anything received that is not a sentence of the published format
         self.pending = {}                   # seq -> parsed reply/exception received for our own requests
-        self.refcounts = {self.ROOT: 0, self.TWICE: 0}
+        self.refcounts = {self.ROOT: 0, self.TWICE: 0, self.ITER: 0, self.SEQ: 0, self.CTX: 0, self.KLASS: 0}
+        self.iter_pos = 0
+        self.ctx_log = []
+        self.handled = set()
         self.refcounts.update((k, 0) for k in self.METHODS.values())
         self.attrs = {"answer": 42, "name": "reference", "blob": bytes(range(7)), "pair": (1, ("x", 2.5, None))}
         if extra_attrs:
@@ -537,8 +553,17 @@ class RefPeer:
                 return self.attrs[name]
             if name == "fn":
                 return _Obj(self.TWICE)
-            if name in self.METHODS:
+            if name == "it":
+                self.iter_pos = 0
+                return _Obj(self.ITER)
+            if name in ("seq", "ctx", "Klass"):
+                return _Obj({"seq": self.SEQ, "ctx": self.CTX, "Klass": self.KLASS}[name])
+            if name in ("add", "echo", "stop", "fail"):
                 return _Obj(self.METHODS[name])
+        if obj.key == self.CTX and name == "__enter__":
+            return _Obj(self.METHODS[name])
+        if obj.key == self.ITER and name == "__iter__":
+            return _Obj(self.METHODS[name])
         raise AttributeError(name)
 
     def _call(self, target, args, kwargs):
@@ -546,6 +571,12 @@ class RefPeer:
             raise TypeError("no keyword arguments")
         key = getattr(target, "key", None)
         name = "twice" if key == self.TWICE else dict((v, k) for k, v in self.METHODS.items()).get(key)
+        if name == "__enter__":
+            self.ctx_log.append("enter")
+            return 1
+        if name == "__iter__":
+            self.iter_pos = 0
+            return _Obj(self.ITER)
         if name == "add":
             a, b = args
             return a + b
@@ -562,6 +593,57 @@ class RefPeer:
 
     def _dispatch(self, handler, args):
         H = HANDLERS
+        self.handled.add(handler)
+        if handler == H["SETATTR"]:
+            obj, name, value = args
+            if obj.key != self.ROOT or type(name) is not str:
+                raise AttributeError(name)
+            self.attrs[name] = value
+            return None
+        if handler == H["DELATTR"]:
+            obj, name = args
+            if obj.key != self.ROOT or name not in self.attrs:
+                raise AttributeError(name)
+            del self.attrs[name]
+            return None
+        if handler == H["CMP"]:
+            obj, other = args[0], args[1]
+            op = args[2] if len(args) > 2 else "__cmp__"
+            mine = 42 if obj.key == self.ROOT else obj.key[2]
+            if op == "__eq__":
+                return mine == other
+            if op == "__ne__":
+                return mine != other
+            raise TypeError("unsupported comparison %r" % (op,))
+        if handler == H["DIR"]:
+            (obj,) = args
+            return self.DIR
+        if handler == H["PICKLE"]:
+            _obj, _proto = args
+            raise ValueError("pickling is disabled")
+        if handler == H["BUFFITER"]:
+            obj, count = args
+            if obj.key != self.ITER or type(count) is not int:
+                raise TypeError("not an iterator")
+            items = self.ITEMS[self.iter_pos:self.iter_pos + max(count, 0)]
+            self.iter_pos += len(items)
+            return items
+        if handler == H["OLDSLICING"]:
+            obj, attempt, fallback, start, stop, extra = args
+            if obj.key != self.SEQ or (attempt, fallback) != ("__getitem__", "__getslice__") or extra != ():
+                raise TypeError("old-style slicing: unexpected arguments %r" % ((attempt, fallback, extra),))
+            return self.SEQ_ITEMS[start:stop]
+        if handler == H["CTXEXIT"]:
+            obj, exc = args
+            if obj.key != self.CTX:
+                raise AttributeError("__exit__")
+            self.ctx_log.append(("exit", exc))
+            return None
+        if handler == H["INSTANCECHECK"]:
+            obj, other = args
+            if obj.key != self.KLASS:
+                raise TypeError("isinstance() arg 2 must be a class")
+            return tuple(other) == self.ROOT
         if handler == H["PING"]:
             (data,) = args
             return data
@@ -591,6 +673,14 @@ class RefPeer:
                 return (("add", "add(a, b)"), ("echo", None), ("stop", None), ("fail", None))
             if key == self.TWICE or key in self.METHODS.values():
                 return (("__call__", "call it"),)
+            if key == self.ITER:
+                return (("__iter__", None), ("__next__", None))
+            if key == self.SEQ:
+                return (("__getitem__", None), ("__getslice__", None))
+            if key == self.CTX:
+                return (("__enter__", None),)        # no __exit__: leaving the block goes through CTXEXIT
+            if key == self.KLASS:
+                return ()
             raise KeyError(key)
         if handler in (H["STR"], H["REPR"]):
             return "<refpeer object %d>" % args[0].key[2]
